@@ -271,6 +271,7 @@ def c12(tier, seed, replay=None):
     for i, c in enumerate(cases):
         c["id"] = i + 1
         c["variant"] = i % 4
+        c["layout"] = (i // 4) % 4        # memory layout of the array leaves: 1-D, Fortran-ordered 2-D, transposed view, strided view
     obs, files = vlib.parallel_replay("cont_replay.py", cases, nproc=14, tag="cont")
     keep_obs = [o for o in obs if not o["err"].startswith("skip:")]
     for o in keep_obs:
@@ -394,6 +395,17 @@ def c15(tier, seed, replay=None):
                         "cases that must raise; distinct_nontrivial = rows whose outcome is a derivative, a raise or a zero",
                 "samples": [rows[0], rows[len(rows) // 2], rows[-1]],
                 "known_findings_reobserved": verdict.known_hits}
+    # "raises at the point of use INSTEAD of returning a truncated derivative" also for the code that handles the raise: programs of the
+    # engine model's fault family differentiate, hit a primitive without a rule (or a raising rule) at some nesting depth, catch the
+    # exception inside the enclosing differentiated function and retry - the retried and the enclosing derivative must be the exact ones
+    from checks import agm
+    v2, cov2 = agm.run_agm("C15", tier, seed, [("fault", 2, None)], [("fault", 2, agm.MUT_TOP)],
+                           "fault family of spec/engine/AGMProgs.tla: loud failures at every nesting depth, caught at every enclosing level, then retried",
+                           agm.ASSUME, write=False)
+    verdict.violations += v2.violations
+    for k_ in ("states", "transitions", "traces_validated_against_impl", "evaluations", "distinct_nontrivial"):
+        coverage[k_] += cov2[k_]
+    coverage["loud_failures_caught_and_retried"] = {k_: cov2[k_] for k_ in ("families", "model_mutants_rejected", "rule") if k_ in cov2}
     rc = verdict.finish()
     vlib.write_evidence("C15", tier, seed, "exploration", coverage,
                         ["19 call templates; callables no template fits are not explored (counted by absence)", "effectful / I/O / RNG-state callables are "
